@@ -88,6 +88,15 @@ func checkC10(c c10Case) (*core.Failure, string) {
 					e.Subject = append(e.Subject, core.RDN{Key: "OU", Value: "edited"})
 					d.Put(e.File, e.Render())
 				}
+			case "edit-keyalg": // changes the configuration (and its hash) but, the key being kept, not one byte of the certificate
+				if e := w.Ent(parts[1]); e != nil {
+					if e.KeyAlg == "P-384" {
+						e.KeyAlg = "P-521"
+					} else {
+						e.KeyAlg = "P-384"
+					}
+					d.Put(e.File, e.Render())
+				}
 			case "edit-ext": // changes the certificate but neither its name nor its key
 				if e := w.Ent(parts[1]); e != nil {
 					e.Extensions = append(e.Extensions, core.Extension{Kind: core.KCUSTOM, OID: "1.2.3.4.5.6", Raw: core.Bin([]byte{5, 0})})
@@ -183,6 +192,11 @@ func genC10Deterministic(t *rapid.T) c10Case {
 	edited := rapid.IntRange(0, tiers-2).Draw(t, "det-edited")
 	c := c10Case{F: f, Flags: core.FlagDefault, Backend: rapid.SampledFrom([]string{"memfs", "memfs", "mapfs", "native"}).Draw(t, "backend"), Prime: true,
 		Perturb: []string{"edit-ext:" + f.W.Ents[edited].EffAlias()}}
+	if rapid.IntRange(0, 2).Draw(t, "det-keyalg-edit") == 0 {
+		// the edit names another key algorithm: the key in the file is kept, so the re-issued certificate is the old one bit for
+		// bit - only the stored hash has to follow the configuration
+		c.Perturb = []string{"edit-keyalg:" + f.W.Ents[rapid.IntRange(0, tiers-1).Draw(t, "det-keyalg-ent")].EffAlias()}
+	}
 	if rapid.Bool().Draw(t, "det-flags") {
 		c.Flags = rapid.SampledFrom([]int{core.FlagDefault, core.FlagDefault | core.FlagNewer, core.FlagDefault | core.FlagExpired}).Draw(t, "det-flagset")
 	}
